@@ -346,9 +346,8 @@ theorem spaced_lead (m k : Nat) (e : Expr) (s : Str) (h : Spaced m k e s) :
     ∀ rest, (∀ y, rest.head? = some y → isIdentChar y = false) → NoAssign (skipSpace rest) → LeadOk (s ++ rest) := by
   induction h with
   | ident m s hs => intro rest hr hn; exact Or.inr ⟨s, rest, rfl, hs, hr, hn⟩
-  | const m v n hv hfit =>
+  | num m v n t hv hnt =>
     intro rest _ _
-    have hnt : NumText (intToDec v) n := by rw [hv]; exact numText_intToDec n hfit
     obtain ⟨y, ys, hs, hy⟩ := numText_head _ n hnt rest
     left
     refine ⟨y, ys, hs, ?_⟩
@@ -357,6 +356,10 @@ theorem spaced_lead (m k : Nat) (e : Expr) (s : Str) (h : Spaced m k e s) :
       | false => rfl
       | true => have := (identStart_facts y hi).1; rw [h] at this; exact absurd this (by decide)
     · decide
+  | chr m c hc =>
+    intro rest _ _
+    left
+    exact ⟨'\'', _, rfl, by decide⟩
   | un m k u e w s _ _ _ =>
     intro rest _ _
     left
